@@ -1540,6 +1540,12 @@ pub(crate) fn compile_ast_to_ir_to_asm(
         }
     };
 
+    // Verification hook H4 (initial stage): optionally round-trip the IR through its textual form.
+    #[cfg(fuellabs_sway_verif)]
+    if verif_hooks::ir_roundtrip_requested("initial") {
+        ir = verif_hooks::ir_roundtrip(handler, ir, engines.se())?;
+    }
+
     // Find all the entry points for purity checking and DCE.
     let entry_point_functions: Vec<::sway_ir::Function> = ir
         .module_iter()
@@ -1613,6 +1619,12 @@ pub(crate) fn compile_ast_to_ir_to_asm(
         }
     }
 
+    // Verification hook H1: optionally replace everything after the initial lowering by a given pass list.
+    #[cfg(fuellabs_sway_verif)]
+    if let Some(group) = verif_hooks::ir_pass_group_override() {
+        pass_group = group;
+    }
+
     // Run the passes.
     let mut options: Options = (&build_config.print_ir).into();
 
@@ -1631,6 +1643,12 @@ pub(crate) fn compile_ast_to_ir_to_asm(
         Ok(())
     };
     res?;
+
+    // Verification hook H4 (final stage).
+    #[cfg(fuellabs_sway_verif)]
+    if verif_hooks::ir_roundtrip_requested("final") {
+        ir = verif_hooks::ir_roundtrip(handler, ir, engines.se())?;
+    }
 
     compile_ir_context_to_finalized_asm(handler, &ir, Some(build_config))
 }
@@ -2118,4 +2136,66 @@ fn test_parser_recovery() {
     let (_, _) = prog.unwrap();
     assert!(handler.has_errors());
     dbg!(handler);
+}
+
+/// Verification-only hooks (compiled only with `--cfg fuellabs_sway_verif`).
+#[cfg(fuellabs_sway_verif)]
+pub(crate) mod verif_hooks {
+    use super::*;
+
+    /// H1: `SWAY_VERIF_IR_PASSES=a,b,c` replaces the whole IR pass pipeline by
+    /// `init-aggr-lowering` followed by exactly the listed registered passes.
+    pub(crate) fn ir_pass_group_override() -> Option<PassGroup> {
+        let list = std::env::var("SWAY_VERIF_IR_PASSES").ok()?;
+        let mut group = PassGroup::default();
+        group.append_pass(INIT_AGGR_LOWERING_NAME);
+        for name in list.split(',').map(str::trim).filter(|n| !n.is_empty()) {
+            group.append_pass(Box::leak(name.to_string().into_boxed_str()));
+        }
+        Some(group)
+    }
+
+    /// H4: `SWAY_VERIF_IR_ROUNDTRIP=initial|final|both`.
+    pub(crate) fn ir_roundtrip_requested(stage: &str) -> bool {
+        match std::env::var("SWAY_VERIF_IR_ROUNDTRIP") {
+            Ok(v) => v == stage || v == "both",
+            Err(_) => false,
+        }
+    }
+
+    /// Print the IR, parse the text back, check that the re-parsed module prints to the same text
+    /// and verifies, and hand back the re-parsed module so that compilation continues from it.
+    pub(crate) fn ir_roundtrip<'eng>(
+        handler: &Handler,
+        ir: sway_ir::Context<'eng>,
+        se: &'eng sway_types::SourceEngine,
+    ) -> Result<sway_ir::Context<'eng>, ErrorEmitted> {
+        let fail = |msg: String| {
+            handler.emit_err(CompileError::InternalOwned(
+                format!("SWAY_VERIF_IR_ROUNDTRIP: {msg}"),
+                span::Span::dummy(),
+            ))
+        };
+        let text = sway_ir::printer::to_string_with_metadata(&ir, true);
+        let reparsed = sway_ir::parser::parse(&text, se, ir.experimental, ir.backtrace)
+            .map_err(|e| fail(format!("parse error: {e}")))?;
+        let text2 = sway_ir::printer::to_string_with_metadata(&reparsed, true);
+        if text != text2 {
+            let line = text
+                .lines()
+                .zip(text2.lines())
+                .position(|(a, b)| a != b)
+                .unwrap_or(0);
+            return Err(fail(format!(
+                "re-printed text differs at line {}: {:?} vs {:?}",
+                line + 1,
+                text.lines().nth(line).unwrap_or(""),
+                text2.lines().nth(line).unwrap_or("")
+            )));
+        }
+        reparsed
+            .verify()
+            .map_err(|e| fail(format!("re-parsed module does not verify: {e}")))?;
+        Ok(reparsed)
+    }
 }
